@@ -41,6 +41,7 @@ func targets() []target {
 		{"socks4", `{"commands":["CONNECT"],"ports":[80,443],"networks":["10.0.0.0/8"]}`, g(mx.GenSocks4)},
 		{"socks5", "", g(mx.GenSocks5)},
 		{"socks5", `{"auth_methods":[0,2]}`, g(mx.GenSocks5)},
+		{"socks5", `{"auth_methods":[1,2]}`, g(mx.GenSocks5)},
 		{"proxy_protocol", "", g(mx.GenProxyProto)},
 		{"regexp", `{"pattern":"^(GET|POST) /","count":6}`, g(mx.GenHTTP1)},
 		{"regexp", `{"pattern":"HTTP/1","count":40}`, g(mx.GenHTTP1)},
